@@ -59,6 +59,8 @@ COMMANDS = [
     # the same commands run from SOMEWHERE ELSE with the config directory given explicitly: nothing may appear in that other directory either
     ['up', '-q', '@CONFIG'], ['up', '--format', 'summary', '@CONFIG'], ['up', '-q', '--format', 'json', '@CONFIG'], ['discover', '@CONFIG'], ['diag', '@CONFIG'], ['explain', 'Netflix', '@CONFIG'],
     ['up', '--migrate', '-q', '@CONFIG'],
+    # a relative -o is relative to where the command is run: the report appears THERE, nothing new in the budget folder
+    ['up', '-q', '-o', 'asked_for.html', '@CONFIG'], ['up', '-q', '--no-embedded-html', '-o', 'asked_for.html', '@CONFIG/'],
     # the config path as shell completion leaves it (trailing separator), absolute from elsewhere and relative from the budget folder
     ['up', '-q', '@CONFIG/'], ['up', '-q', '--no-embedded-html', '@CONFIG/'], ['discover', '@CONFIG/'], ['up', '-q', '@RELCONFIG/'], ['up', '-q', '--format', 'json', '@RELCONFIG/'], ['explain', 'Netflix', '@RELCONFIG/'],
     ['up', '-q', './@RELCONFIG'],
@@ -238,6 +240,8 @@ def step(folder, cmd, case):
     if elsewhere is not None:
         left = sorted(os.path.join(d, n)[len(elsewhere) + 1:] for d, _, fs in os.walk(elsewhere) for n in fs)
         dirs = sorted(os.path.join(d, n)[len(elsewhere) + 1:] for d, ds, _ in os.walk(elsewhere) for n in ds)
+        asked = {cmd[i + 1] for i, a in enumerate(cmd[:-1]) if a == '-o' and not os.path.isabs(cmd[i + 1]) and '@' not in cmd[i + 1]}
+        left = [p for p in left if p not in asked and not (asked and p.endswith(('.js', '.css')))]
         if left or dirs:
             raise Violation(f"tally {' '.join(cmd)} run from another directory created {left + dirs} there\nfolder shape: {folder.shape}", case, 'wrote-into-cwd')
         import shutil
